@@ -111,6 +111,92 @@ PROPS = {
         technique="Coq mirror + refutation witness + extracted-oracle correspondence on non-canonical encodings",
         timeout=3000,
     ),
+    "C06": dict(
+        rule=HIST_RULE + "; n blocks, then undo k in [1,n] newest-first, after EACH undo: roots, leaf count, position of tracked "
+             "leaves (live and dead), GetHash at every position, 3 random Prove requests, NodeMap/NumDels/CachedLeaves counts; "
+             "then redo with other blocks; Pollard, full MapPollard (TotalRows 0,5,63) and partial MapPollard (TotalRows 0,63; "
+             "deletions verified with remember first; stored map and cached set dumped)",
+        strength="P: undo is the exact inverse on the reference to any depth; V: implementations after Undo = reference previous state",
+        level_text="The reference-level inverse (one block and any depth) is a Coq theorem; that Pollard.Undo and MapPollard.Undo "
+                   "(full and partial) land in a state observationally identical to the reference's previous state is judged by the "
+                   "extracted oracle after every single undo and after redo on another branch.",
+        technique="Coq reference model theorem + extracted-oracle correspondence over undo/redo histories",
+    ),
+    "C07": dict(
+        rule=HIST_RULE + "; a light client (Stump + Proof + hashes) is updated with Proof.Update from block data and UpdateData only; "
+             "remember pattern per history in {none, all, last only, random}; after every block the oracle checks hashes = expected "
+             "set ordered by position, targets = true positions, proof = canonical hashes, and Verify accepts",
+        strength="P: set algebra of the cached leaves (abstract); V: Proof.Update output = canonical cached proof of that set",
+        level_text="The leaf set a client must hold after a block is a Coq theorem on the abstract model; the canonical cached proof of "
+                   "that set is computed by the extracted reference and compared with what Proof.Update produced, after every block.",
+        technique="Coq abstract model + extracted-oracle correspondence (light client along histories)",
+    ),
+    "C08": dict(
+        rule=HIST_RULE + "; as C07, then Proof.Undo newest-first to depth k (all k sampled), canonical cached proof in the pre-block "
+             "state checked after every undo (and Verify against the previous stump), followed by further updates on another branch",
+        strength="P: which leaves remain after undo (abstract); V: Proof.Undo output = canonical cached proof of that set in the previous state",
+        level_text="Which leaves a cached proof keeps through undo is a Coq theorem on the abstract model (no added leaf, nothing invented, "
+                   "nothing lost except what the block deleted); the extracted oracle checks that Proof.Undo yields exactly the canonical "
+                   "proof of that set in the previous state, at every depth.",
+        technique="Coq abstract model + extracted-oracle correspondence (undo of cached proofs)",
+    ),
+    "C09": dict(
+        rule="random interleavings of Modify (random Remember flags), Verify(remember) / Ingest of arbitrary live sets, Prune of "
+             "arbitrary cached subsets and Undo on NewMapPollard(false) with TotalRows in {0,4,63}, a quarter of the runs restarted "
+             "from NewMapPollardFromRoots at a reached state; after EVERY operation the stored map and cached leaves are dumped: "
+             "every stored (pos,hash) true, stored within allowed(R), needed(R) within stored, cached set = R, look-ups, canonical "
+             "proofs of random sub-lists of R; distinct_nontrivial = distinct operation sequences",
+        strength="P: ordering of needed positions; V: stored/needed/allowed invariants and provability after every operation",
+        level_text="needed(R) and allowed(R) are defined on the Coq reference; after every operation of random interleavings the "
+                   "extracted oracle checks the dumped partial forest against them and against the true hashes.",
+        technique="Coq reference model + extracted-oracle invariant check after every operation",
+    ),
+    "C12": dict(
+        rule="(a) generated obligation: lock/field-access table of MapPollard regenerated from the source (lockscan) and wf_table "
+             "re-proved; (b) race-detector build: 6 reader goroutines calling all 11 queries against a writer doing Modify/Undo/"
+             "Ingest/Verify(remember)/Prune/Read; (c) writer suspended inside its critical section at every verifPoint site, all "
+             "queries started: none may complete, each result must equal the pre- or post-operation result; "
+             "distinct_nontrivial = distinct (operation, site) pauses",
+        strength="P: protocol theorems (race freedom, whole-block atomicity, no deadlock) for every wf table; generated: table_ok; V: race detector + paused-writer runs",
+        level_text="A reader-writer-lock protocol model with theorems that a well-formed lock table implies race freedom, whole-block "
+                   "atomicity and absence of deadlock; the table is regenerated from mappollard.go on every run and re-checked. "
+                   "Schedules are additionally sampled with the race detector and with a writer suspended at hook sites.",
+        technique="Coq protocol theorems + table regenerated from source + race-detector/paused-writer runs",
+        race=True, gen=gen_lock, timeout=3000,
+        note="sync.RWMutex implementing the protocol, the Go memory model and the scheduler are trusted; lockscan (source translator) is trusted.",
+    ),
+    "C13": dict(
+        rule="states of Pollard, full and partial MapPollard (TotalRows 0,4,5,63) after random histories: restore under 5 chunkings "
+             "(whole, 1 byte, 16, random, data-with-EOF), every truncation point (sampled above 600 bytes in quick), writer failure "
+             "at 50/400 offsets, byte counts and SerializeSize, restored instance observed through the interface by the oracle and "
+             "compared on internal maps incl. Remember, then 3 blocks + undo on the restored instances",
+        strength="P: codec theorems on the mirror (as delivered); V: Go bytes/round-trip/faults on every state",
+        level_text="Both wire formats are mirrored in Gallina over byte lists with chunk-oracle readers and failing sinks; round-trip, "
+                   "chunking independence, prefix rejection and size theorems are proved there; the Go code is run on every reader "
+                   "chunking, truncation point and sink failure and the restored instances are judged by the extracted oracle.",
+        technique="Coq codec mirror theorems + fault-enumerating differential run",
+    ),
+    "C14": dict(
+        rule="forests after random histories; pairs of target sets (random, overlapping, sorted and unsorted parallel order): AddProof "
+             "vs canonical proof of the union; GetProofSubset on random permuted subsets (hashes, targets, proof) and on an "
+             "uncovered target (must err); GetMissingPositions vs the reference definition; MapPollard.GetMissingPositions vs "
+             "'canonical positions not stored'; VerifyPartialProof with the true hashes (accept) and one flipped bit (reject)",
+        strength="P: union/coverage on leaf sets; V: every helper's output = canonical proofs/positions of the reference",
+        level_text="Union and coverage are Coq theorems on the abstract level; the exact proofs/positions each helper must return are "
+                   "computed by the extracted reference and compared with AddProof, GetProofSubset, GetMissingPositions and the map "
+                   "forest's partial-proof API.",
+        technique="Coq reference model + extracted-oracle correspondence",
+    ),
+    "C15": dict(
+        rule=HIST_RULE + "; block summaries fed to the tracker; limits 1,2,3,5,total,total+5,10^6; the schedule is judged on the three "
+             "clauses with added_at/deleted_at computed from the slot history; genTTLs' lists compared with the reference TTL facts; "
+             "the eviction loop compared with its Gallina mirror on the same TTL lists",
+        strength="P: subset/memory/completeness of the eviction-loop mirror for all well-formed TTL lists and all limits; V: genTTLs = reference TTL facts, loop = mirror",
+        level_text="The eviction loop of GenerateCachingSchedule is mirrored in Gallina and the three clauses are proved for every "
+                   "well-formed TTL input and every memory limit; that genTTLs produces exactly the TTL facts of the slot history and "
+                   "that the Go loop equals the mirror are checked by the extracted oracle along random histories.",
+        technique="Coq proof about executable mirror of the eviction loop + extracted-oracle correspondence",
+    ),
     "C10": dict(
         rule=HIST_RULE + "; after every block: GetLeafPosition for every live leaf, every dead leaf, every internal node hash and a "
              "fresh hash; GetHash for every position in [0, 2^(rows+1)+3] and 2^40, 2^63, 2^64-2, 2^64-1; NodeMap/NumDels/"
